@@ -167,6 +167,60 @@ fn key_eq(a: &RNode, b: &RNode) -> bool {
     }
 }
 
+/// Equal when the entry order of mappings is disregarded (YAML's own notion of mapping equality).
+fn key_eq_unordered(a: &RNode, b: &RNode) -> bool {
+    match (a, b) {
+        (RNode::Scalar { value: v1, tag: t1, .. }, RNode::Scalar { value: v2, tag: t2, .. }) => v1 == v2 && t1 == t2,
+        (RNode::Seq { items: i1, .. }, RNode::Seq { items: i2, .. }) => {
+            i1.len() == i2.len() && i1.iter().zip(i2).all(|(x, y)| key_eq_unordered(x, y))
+        }
+        (RNode::Map { entries: e1, .. }, RNode::Map { entries: e2, .. }) => {
+            e1.len() == e2.len()
+                && e1.iter().all(|(k1, v1)| e2.iter().any(|(k2, v2)| key_eq_unordered(k1, k2) && key_eq_unordered(v1, v2)))
+                && e2.iter().all(|(k2, v2)| e1.iter().any(|(k1, v1)| key_eq_unordered(k1, k2) && key_eq_unordered(v1, v2)))
+        }
+        _ => false,
+    }
+}
+
+fn key_eq_ignoring_leaf_tags(a: &RNode, b: &RNode) -> bool {
+    match (a, b) {
+        (RNode::Scalar { value: v1, .. }, RNode::Scalar { value: v2, .. }) => v1 == v2,
+        (RNode::Seq { items: i1, .. }, RNode::Seq { items: i2, .. }) => {
+            i1.len() == i2.len() && i1.iter().zip(i2).all(|(x, y)| key_eq_ignoring_leaf_tags(x, y))
+        }
+        (RNode::Map { entries: e1, .. }, RNode::Map { entries: e2, .. }) => {
+            e1.len() == e2.len()
+                && e1.iter().zip(e2).all(|((k1, v1), (k2, v2))| key_eq_ignoring_leaf_tags(k1, k2) && key_eq_ignoring_leaf_tags(v1, v2))
+        }
+        _ => false,
+    }
+}
+
+fn definitely_string(t: &str) -> bool {
+    let lower = t.to_ascii_lowercase();
+    !t.is_empty()
+        && t.chars().next().is_some_and(|c| c.is_ascii_alphabetic())
+        && t.chars().all(|c| c.is_ascii_alphanumeric() || c == '_')
+        && !["true", "false", "null", "yes", "no", "on", "off", "y", "n", "nan", "inf"].contains(&lower.as_str())
+}
+
+/// For two equal keys: does some leaf differ plain-vs-quoted where the plain form may not be a string?
+fn resolution_may_differ(a: &RNode, b: &RNode) -> bool {
+    match (a, b) {
+        (RNode::Scalar { value, style: s1, tag, .. }, RNode::Scalar { style: s2, .. }) => {
+            let p1 = matches!(s1, ScalarStyle::Plain);
+            let p2 = matches!(s2, ScalarStyle::Plain);
+            p1 != p2 && tag.as_deref() != Some("!!str") && !definitely_string(value)
+        }
+        (RNode::Seq { items: i1, .. }, RNode::Seq { items: i2, .. }) => i1.iter().zip(i2).any(|(x, y)| resolution_may_differ(x, y)),
+        (RNode::Map { entries: e1, .. }, RNode::Map { entries: e2, .. }) => {
+            e1.iter().zip(e2).any(|((k1, v1), (k2, v2))| resolution_may_differ(k1, k2) || resolution_may_differ(v1, v2))
+        }
+        _ => false,
+    }
+}
+
 fn with_pos(mut n: RNode, p: Pos) -> RNode {
     match &mut n {
         RNode::Scalar { pos, .. } | RNode::Seq { pos, .. } | RNode::Map { pos, .. } | RNode::Alias { pos, .. } => *pos = p,
@@ -270,6 +324,12 @@ struct Analysis {
     root_is_map: bool,
     root_keys_plain_scalars: bool,
     custom_tag_lookalike: bool,
+    /// two container keys of one mapping are equal once the tags of their scalar leaves are ignored
+    container_leaf_tag_lookalike: bool,
+    /// some repeated key is written plain at one occurrence and quoted at another on a leaf whose
+    /// plain form a typed target may resolve to a non-string (`1` vs "1"): the target's own key
+    /// equality then differs from YAML key identity, so "overwriting" says nothing
+    repeat_differs_in_resolution: bool,
     key_kinds: BTreeSet<&'static str>,
     discarded_values: BTreeSet<&'static str>,
 }
@@ -313,6 +373,9 @@ fn analyse(raw: Option<&RNode>, usex: &RNode, defx: &RNode, c: &Ctx, an: &mut An
                 let earlier = entries[..i].iter().find(|(k2, _)| !is_merge_key(k2) && key_eq(k2, k));
                 if let Some((k0, _)) = earlier {
                     an.repeats += 1;
+                    if entries[..i].iter().any(|(k2, _)| !is_merge_key(k2) && key_eq(k2, k) && resolution_may_differ(k2, k)) {
+                        an.repeat_differs_in_resolution = true;
+                    }
                     if i + 1 < entries.len() {
                         an.entry_after_repeat = true;
                     }
@@ -336,6 +399,15 @@ fn analyse(raw: Option<&RNode>, usex: &RNode, defx: &RNode, c: &Ctx, an: &mut An
                             discarded_value: value_class(rv, v),
                         });
                     }
+                } else if !matches!(k, RNode::Scalar { .. })
+                    && entries[..i].iter().any(|(k2, _)| !is_merge_key(k2) && key_eq_ignoring_leaf_tags(k2, k))
+                {
+                    an.container_leaf_tag_lookalike = true;
+                } else if !matches!(k, RNode::Scalar { .. })
+                    && entries[..i].iter().any(|(k2, _)| !is_merge_key(k2) && key_eq_unordered(k2, k))
+                {
+                    // same entries in another order inside a mapping (key): "same structure" does not say
+                    an.unspecified.insert("mapping-keys-equal-up-to-entry-order");
                 } else if let RNode::Scalar { value, tag, .. } = k {
                     // keys that differ only in a custom tag (the statement: different tag = different key)
                     if is_custom_tag(tag)
@@ -617,7 +689,13 @@ fn check_doc(run: &Run, doc: &str, flow: bool, class: &str) {
             }
             let same = same_value_or_both_err(&outs[0], &outs[1]) && same_value_or_both_err(&outs[0], &outs[2]);
             if !same {
-                let feat = if an.custom_tag_lookalike { "keys-differing-only-in-custom-tag" } else { "general" };
+                let feat = if an.custom_tag_lookalike {
+                    "keys-differing-only-in-custom-tag"
+                } else if an.container_leaf_tag_lookalike {
+                    "container-keys-differing-only-in-leaf-tag"
+                } else {
+                    "general"
+                };
                 report(run, 
                     &format!("C04:no-repeat:policies-differ:{feat}"),
                     case(json!({"target": tn})),
@@ -672,6 +750,14 @@ fn check_doc(run: &Run, doc: &str, flow: bool, class: &str) {
                     let kind = vcore::errs::kind(&e);
                     acc::observe(run, "error_policy_kinds", &kind);
                     if kind != "DuplicateMappingKey" {
+                        // an error of the target itself that precedes the repeated key (e.g. a tagged scalar the
+                        // target cannot take in key position) is not the policy's business: the document must be
+                        // readable by this target when nothing is rejected as a duplicate
+                        run.eval();
+                        if !matches!(run_target(tn, doc, 2), Ok(Ok(_))) {
+                            acc::count("error_policy_skipped_target_rejects_document", 1);
+                            continue;
+                        }
                         report(run, 
                             &format!("C04:error-policy:wrong-error:{kind}"),
                             cj(),
@@ -744,9 +830,14 @@ fn check_doc(run: &Run, doc: &str, flow: bool, class: &str) {
     }
 
     // ---- LastWins into overwriting maps: equals the document with every earlier entry deleted
+    let overwrite_ok = !an.repeat_differs_in_resolution;
+    if !overwrite_ok {
+        acc::count("unspecified/overwriting-target-resolves-repeated-key-differently", 1);
+    }
     // (a) overwriting at every level (OVal): every mapping of the reference is de-duplicated
     let d_last = dedup(&usex, false);
-    if let Some((ldoc, lraw)) = render_ref(run, &d_last, flow, "last-wins reference") {
+    if !overwrite_ok {
+    } else if let Some((ldoc, lraw)) = render_ref(run, &d_last, flow, "last-wins reference") {
         if analyse_doc(&lraw, &lraw, &lraw).repeats != 0 {
             run.inconclusive("model error: last-wins reference still has repeats");
         } else {
@@ -773,7 +864,7 @@ fn check_doc(run: &Run, doc: &str, flow: bool, class: &str) {
         }
     }
     // (b) BTreeMap<_, Val>: only the root mapping overwrites, the values below are ordered pair lists
-    if an.root_is_map && matches!(&usex, RNode::Map { entries, .. } if map_has_repeat(entries)) {
+    if overwrite_ok && an.root_is_map && matches!(&usex, RNode::Map { entries, .. } if map_has_repeat(entries)) {
         let d_last_root = dedup_last_root(&usex);
         if let Some((ldoc, _)) = render_ref(run, &d_last_root, flow, "last-wins root reference") {
             for tn in ["MapValVal", "MapStrVal"] {
@@ -869,6 +960,9 @@ enum Variant {
     Same,
     Restyle,
     Alias,
+    /// looks like the first occurrence but carries `!!str` on the scalar / the first element /
+    /// the entry key: a *different* key (random part only)
+    TagElem,
 }
 
 #[derive(Clone, Debug, PartialEq)]
@@ -916,6 +1010,14 @@ impl B {
         let name = format!("k{}", id + 1);
         if later == Some(Variant::Alias) {
             return Node::alias(&format!("a{id}"));
+        }
+        if later == Some(Variant::TagElem) {
+            let t = Node::plain(&name).with_tag("!!str");
+            return match kind {
+                KKind::Scalar => t,
+                KKind::Seq => Node::fseq(vec![t, Node::plain("s")]),
+                KKind::Map => Node::fmap(vec![(t, Node::plain("m"))]),
+            };
         }
         let restyle = later == Some(Variant::Restyle);
         let n = match kind {
@@ -1172,7 +1274,7 @@ fn random_spec(rng: &mut Rng, depth: usize) -> Spec {
             .collect()
     };
     let kinds: Vec<KKind> = (0..n_ids).map(|_| *rng.pick(&[KKind::Scalar, KKind::Scalar, KKind::Seq, KKind::Map])).collect();
-    let variants: Vec<Variant> = (0..n).map(|_| *rng.pick(&[Variant::Same, Variant::Same, Variant::Restyle, Variant::Alias])).collect();
+    let variants: Vec<Variant> = (0..n).map(|_| *rng.pick(&[Variant::Same, Variant::Same, Variant::Same, Variant::Restyle, Variant::Restyle, Variant::Alias, Variant::Alias, Variant::TagElem])).collect();
     let mut values = Vec::new();
     for _ in 0..n {
         let v = match rng.below(20) {
@@ -1316,6 +1418,102 @@ fn main() {
                     }
                 }
             }
+        }
+        // container keys whose scalar leaves differ in tag only (different keys), in style only (same key),
+        // in order, or in one element; sequence and mapping keys, nested one level, block and flow keys.
+        {
+            // leaf variants of the scalar `1`
+            let leaf = |v: usize| -> Node {
+                match v {
+                    0 => Node::plain("1"),
+                    1 => Node::dq("1"),
+                    2 => Node::plain("1").with_tag("!!str"),
+                    3 => Node::plain("1").with_tag("!!int"),
+                    4 => Node::plain("1").with_tag("!foo"),
+                    5 => Node::plain("1").with_tag("!bar"),
+                    6 => Node::sq("1").with_tag("!!str"),
+                    _ => Node::dq("1").with_tag("!foo"),
+                }
+            };
+            const N_LEAF: usize = 8;
+            let x = || Node::plain("x");
+            // container forms around one varied leaf
+            let form = |f: usize, l: Node| -> Node {
+                match f {
+                    0 => Node::seq(vec![l, x()]),
+                    1 => Node::seq(vec![x(), l]),
+                    2 => Node::seq(vec![l]),
+                    3 => Node::map(vec![(l, x())]),
+                    4 => Node::map(vec![(x(), l)]),
+                    5 => Node::map(vec![(Node::plain("y"), x()), (x(), l)]),
+                    6 => Node::seq(vec![Node::seq(vec![l, x()]), Node::plain("y")]),
+                    7 => Node::seq(vec![Node::map(vec![(l, x())])]),
+                    8 => Node::map(vec![(x(), Node::seq(vec![x(), l]))]),
+                    9 => Node::map(vec![(x(), Node::map(vec![(l, x())]))]),
+                    _ => Node::map(vec![(Node::seq(vec![l]), x())]),
+                }
+            };
+            const N_FORM: usize = 11;
+            let mut cases: Vec<(Node, Node)> = Vec::new();
+            for f in 0..N_FORM {
+                for a in 0..N_LEAF {
+                    for b in 0..N_LEAF {
+                        cases.push((form(f, leaf(a)), form(f, leaf(b))));
+                    }
+                }
+            }
+            // order / one element / length / nesting differences, and their must-collide controls
+            let p = |t: &str| Node::plain(t);
+            let extra: Vec<(Node, Node)> = vec![
+                (Node::seq(vec![p("1"), p("x")]), Node::seq(vec![p("x"), p("1")])),
+                (Node::seq(vec![p("1"), p("x"), p("y")]), Node::seq(vec![p("1"), p("y"), p("x")])),
+                (Node::seq(vec![p("1"), p("x")]), Node::seq(vec![p("1"), p("y")])),
+                (Node::seq(vec![p("1"), p("x")]), Node::seq(vec![p("1"), p("x"), p("x")])),
+                (Node::seq(vec![Node::seq(vec![p("1")]), p("x")]), Node::seq(vec![p("1"), Node::seq(vec![p("x")])])),
+                (Node::seq(vec![Node::seq(vec![p("1"), p("x")])]), Node::seq(vec![Node::seq(vec![p("x"), p("1")])])),
+                (Node::map(vec![(p("1"), p("x"))]), Node::map(vec![(p("x"), p("1"))])),
+                (Node::map(vec![(p("1"), p("x"))]), Node::map(vec![(p("1"), p("y"))])),
+                (Node::map(vec![(p("1"), p("x"))]), Node::map(vec![(p("1"), p("x")), (p("2"), p("x"))])),
+                (Node::map(vec![(p("1"), Node::seq(vec![p("x"), p("y")]))]), Node::map(vec![(p("1"), Node::seq(vec![p("y"), p("x")]))])),
+                (Node::map(vec![(p("1"), Node::seq(vec![p("x")]))]), Node::map(vec![(p("1"), p("x"))])),
+                // mapping keys equal up to entry order: counted as unspecified
+                (Node::map(vec![(p("1"), p("x")), (p("2"), p("y"))]), Node::map(vec![(p("2"), p("y")), (p("1"), p("x"))])),
+                // controls: the same key
+                (Node::seq(vec![p("1"), p("x"), p("y")]), Node::seq(vec![Node::dq("1"), Node::sq("x"), p("y")])),
+                (Node::seq(vec![Node::seq(vec![p("1"), p("x")])]), Node::seq(vec![Node::seq(vec![Node::sq("1"), Node::dq("x")])])),
+                (Node::map(vec![(p("1"), p("x")), (p("2"), p("y"))]), Node::map(vec![(Node::dq("1"), p("x")), (p("2"), Node::sq("y"))])),
+                (Node::map(vec![(p("1"), Node::seq(vec![p("x"), p("y")]))]), Node::map(vec![(p("1"), Node::seq(vec![Node::dq("x"), p("y")]))])),
+            ];
+            cases.extend(extra);
+            acc::count("container_lookalike_key_pairs", cases.len() as u64);
+            par_range(cases.len(), |i| {
+                let (a, b) = &cases[i];
+                // layouts: block document with block keys, block document with flow keys, all flow
+                for layout in 0..3 {
+                    for wrap in 0..3 {
+                        let (mut ka, mut kb) = (a.clone(), b.clone());
+                        if layout == 1 {
+                            ka.set_flow(true);
+                            kb.set_flow(true);
+                        }
+                        let mut t = mk(ka, kb, wrap);
+                        if layout == 2 {
+                            t.set_flow(true);
+                        }
+                        match render_checked(&t, &ro) {
+                            Some((doc, _)) => {
+                                acc::count("container_lookalike_docs", 1);
+                                if (i * 9 + layout * 3 + wrap) % 1777 == 0 {
+                                    run.sample(|| json!({"class": "container-look-alike", "doc": doc}));
+                                }
+                                check_doc(&run, &doc, layout == 2, "container-look-alike");
+                            }
+                            None => run.inconclusive("generator-invalid: container look-alike document not parsed as intended"),
+                        }
+                    }
+                }
+                acc::flush(&run);
+            });
         }
         // keys that differ only in a custom tag
         for doc in ["!foo k1: t0\n!bar k1: t1\nk2: t2\n", "{!foo k1: t0, k2: t1, !bar k1: t2}\n", "- !u a: t0\n  !v a: t1\n- t2\n"] {
